@@ -183,6 +183,33 @@ func familyVerify(t *testing.T) {
 				}
 				r.mint(kinds[rng.Intn(len(kinds))], exps[rng.Intn(len(exps))], jti)
 			}
+			switch sc % 5 {
+			case 1: // revoked, then verified inside the clock-skew window after its own expiry (a from-scratch verification still accepts there)
+				tk := r.mint("valid", 90*time.Second, "")
+				if sc%2 == 1 {
+					r.verify(tk, false)
+				}
+				r.revoke(tk)
+				vsleep(time.Duration(91+rng.Intn(115)) * time.Second)
+				r.verify(tk, false)
+				vsleep(20 * time.Second)
+				r.verify(tk, false)
+			case 2: // revoked when already past its expiry but still inside the skew window: the very next verification must reject
+				tk := r.mint("valid", -time.Duration(1+rng.Intn(110))*time.Second, "")
+				r.revoke(tk)
+				r.verify(tk, false)
+				vsleep(time.Duration(rng.Intn(5)) * time.Second)
+				r.verify(tk, false)
+			case 3: // short-lived token revoked at once, verified just before and just after its expiry
+				tk := r.mint("valid", 5*time.Minute, "")
+				r.revoke(tk)
+				vsleep(5*time.Minute - time.Second)
+				r.verify(tk, false)
+				vsleep(2 * time.Second)
+				r.verify(tk, false)
+				vsleep(100 * time.Second)
+				r.verify(tk, false)
+			}
 			if sc%5 == 0 { // the textbook sequence: verify, revoke, verify at once, wait 25 h, verify
 				tk := r.mint("valid", 72*time.Hour, "")
 				r.verify(tk, false)
